@@ -50,6 +50,7 @@ type Scenario struct {
 	Flaky      int        `json:"flaky,omitempty"`       // the key is a device that fails its first n requests (a token that lost its session, a throttled KMS) and works from then on
 	ThirdParty int        `json:"third_party,omitempty"` // the message that travels is signed by an independent implementation (own digest construction, standard library crypto): 1 ECDSA with the smaller s, 2 with the larger s, 3 as it comes
 	Glitch     bool       `json:"glitch,omitempty"`      // the key is a device whose first answer is damaged (one bit of the signature flipped, no error): whatever Sign makes of that, the application signs again and that second attempt is judged like any other
+	TrailSIG   bool       `json:"trail_sig,omitempty"`   // the message's additional section ends in a SIG record of its own - one that covers an RRset (a dynamic update that carries signed data): part of the message like any other record
 	EscOwner   int        `json:"esc_owner,omitempty"`   // the verifier's KEY record spells its owner with a decimal escape for one letter (\101 for e) - the same domain name, the matching key; 2: the signer spells its own name that way too
 	OwnSIG     bool       `json:"own_sig,omitempty"`     // the verifier checks the delivered octets with the SIG object that signed (the way the library's own test does): that object holds the genuine signature, whatever the octets say
 	Spare      bool       `json:"spare,omitempty"`       // the message's sections are slices with room to spare, and what lies in that room belongs to someone else (another message built on the same array)
@@ -120,9 +121,10 @@ func Gen(seed uint64, tier string) any {
 	sc.Resign = core.Chance(r, 25)
 	sc.OwnSIG = core.Chance(r, 20)
 	sc.Glitch = sc.Flaky == 0 && core.Chance(r, 6)
-	if core.Chance(r, 6) {
-		sc.EscOwner = 1 + r.IntN(2)
+	if core.Chance(r, 8) {
+		sc.EscOwner = 1 + r.IntN(3)
 	}
+	sc.TrailSIG = core.Chance(r, 8)
 	sc.Spare = core.Chance(r, 25)
 	sc.SharedMsg = sc.Parallel > 0 && core.Chance(r, 50)
 	if core.Chance(r, 30) {
@@ -359,11 +361,16 @@ func runIn(sc *Scenario, res *core.Result, verbose bool) {
 	time.Sleep(time.Duration(sc.EpochS) * time.Second)
 
 	m := sc.Msg.Build()
+	if sc.TrailSIG {
+		m.Extra = append(m.Extra, &dns.SIG{RRSIG: dns.RRSIG{Hdr: dns.RR_Header{Name: "signed.example.", Rrtype: dns.TypeSIG, Class: dns.ClassINET, Ttl: 300}, TypeCovered: dns.TypeA, Algorithm: dns.RSASHA256,
+			Labels: 2, OrigTtl: 300, Expiration: 1700003600, Inception: 1700000000, KeyTag: 4711, SignerName: "example.", Signature: "c2lnbmF0dXJlIG9mIGFuIFJSc2V0IGluIHRoZSBtZXNzYWdl"}})
+		res.Bump("cover.message_ends_in_a_sig_record_of_its_own")
+	}
 	packed, perr := m.Pack()
 	if sc.NearLimit > 0 && perr == nil {
 		// steer the packed size to the very edge of what can still be signed with this key
 		rc := sc.Msg
-		want := 65535 - (1 + 10 + 18 + len(kp.key.Hdr.Name) + 1 + sigLen(kp.priv)) - (sc.NearLimit - 1)
+		want := 65535 - (1 + 10 + 18 + len(kp.key.Hdr.Name) + len(rawPrefix(sc)) + 1 + sigLen(kp.priv)) - (sc.NearLimit - 1)
 		for i := 0; i < 6 && perr == nil && len(packed) != want; i++ {
 			rc.Pad += want - len(packed)
 			if rc.Pad < 1 {
@@ -396,6 +403,12 @@ func runIn(sc *Scenario, res *core.Result, verbose bool) {
 		ek.Hdr.Name = escapeOne(ek.Hdr.Name)
 		vkey = ek
 		if sc.EscOwner == 2 {
+			sig.SignerName = ek.Hdr.Name
+		}
+		if sc.EscOwner == 3 {
+			// a name with characters that unpacking spells with a backslash and that an application may well
+			// write without one: signer and KEY spell it the same, raw
+			ek.Hdr.Name = rawPrefix(sc) + kp.key.Hdr.Name
 			sig.SignerName = ek.Hdr.Name
 		}
 		res.Bump("cover.key_owner_spelled_with_an_escape")
@@ -487,7 +500,7 @@ func runIn(sc *Scenario, res *core.Result, verbose bool) {
 			return
 		}
 	}
-	sigRRLen := 1 + 10 + 18 + len(kp.key.Hdr.Name) + 1 + sigLen(kp.priv) // owner, fixed part, SIG RDATA up to the signer name, the signature of this very key
+	sigRRLen := 1 + 10 + 18 + len(kp.key.Hdr.Name) + len(rawPrefix(sc)) + 1 + sigLen(kp.priv) // owner, fixed part, SIG RDATA up to the signer name, the signature of this very key
 	if err != nil {
 		if len(packed)+sigRRLen > 65535 {
 			res.Bump("cover.too_large_to_sign")
@@ -1077,6 +1090,15 @@ func runParallel(sc *Scenario, res *core.Result, verbose bool) {
 	}
 	res.Nontrivial = true
 	res.Class = "parallel/n=" + strconv.Itoa(sc.Parallel) + "/" + dns.AlgorithmToString[keys[sc.Key%len(keys)].key.Algorithm]
+}
+
+// rawPrefix is the label (with its dot) that scenarios with esc_owner 3 put in front of the signer's name: as many
+// octets on the wire as in the text.
+func rawPrefix(sc *Scenario) string {
+	if sc.EscOwner != 3 {
+		return ""
+	}
+	return []string{"o'brien.", "dyn@home.", "caf\u00e9.", "a;b."}[sc.RunSeed%4]
 }
 
 // escapeOne spells the first letter of a domain name as a decimal escape: another spelling of the same name.
